@@ -351,6 +351,22 @@ PROPS["C07"] = dict(
     thorough=[c07(1, 2, 3, 3000), c07(2, 2, 2, 3000)],
 )
 
+def c17(budget, timeout=1800):
+    return spec("H-C17a[%d]" % budget, "./pkg/introspection", ["introspection/c17_roundtrip.go"], "VerifC17RoundTrip", [budget],
+                "generated schemas merged with the base schema: custom scalar (+@specifiedBy), enum (+deprecated value), input object with defaults, interface implementing interface, objects implementing one or two interfaces, union, custom root type names with schema definition, mutation type, directive definition (+repeatable, argument with default); fields with 0-2 arguments over 7 argument shapes (defaults: int, nested lists, input object literal with null, enum, escaped string, null), 6 output type shapes (wrapping depth <=3), descriptions as quoted or block strings, @deprecated with and without reason; at most %d optional features per schema" % budget,
+                ["round trip compared"], timeout=timeout)
+
+PROPS["C17"] = dict(
+    title="Introspection describes exactly the configured schema",
+    level_text="bounded symbolic execution of the real introspection generator, the JSON converter, astprinter and astparser on solver-chosen generated schemas: the generated introspection data, described through the package's own data structures, equals a description written by the schema generator itself independently of any AST code (types, fields, argument types, default values, enum values, interfaces, possible types, directives with locations and repeatability, descriptions, deprecations - nothing missing or invented), and marshal -> converter -> print -> parse -> generate reproduces the same data for all types including the built-in ones",
+    level_note="bounds: generated schema family with a feature budget; type extensions, subscription root, deeply nested input defaults beyond the listed shapes, and the __schema/__type answers served through the engine's introspection datasource are not covered; encoding/json is the engine's model (validated against native encoding/json by the SELF check); trusted base: gosym, the generator-written description",
+    design_ref="DESIGN.md §4 C17",
+    assumptions=["directive locations are compared as a set"],
+    stubs=["encoding/json Marshal / Decoder.Decode: engine model"],
+    quick=[c17(2)],
+    thorough=[c17(4, 3000)],
+)
+
 NOT_APPLICABLE = {
     "C20": "The gRPC datasource's data path runs on protoreflect/dynamicpb/protocompile (reflection, unsafe, generated descriptors); no SSA->SMT encoding of it is within reach of the engine built here, and the property is about exactly that path (DESIGN.md §5).",
 }
